@@ -126,6 +126,11 @@ class InjectedFault(RuntimeError):
     pass
 
 
+FAULT_CLASSES = {c.__name__: c for c in (NotImplementedError, KeyError, AttributeError, TypeError, OSError, AssertionError,
+                                            StopIteration, asyncio.TimeoutError, UnicodeDecodeError)}
+FAULT_CLASSES["UnicodeDecodeError"] = lambda msg: UnicodeDecodeError("utf-8", b"x", 0, 1, msg)
+
+
 class World:
     """One LLMRails instance + scripted environment.
 
@@ -134,6 +139,8 @@ class World:
       llm      : function(task, prompt, index) -> str
       faults   : set of action-invocation indices (global counter) at which the stub raises
     """
+
+    action_form = "async"  # how the stub actions are registered: async | sync | wrapped
 
     def __init__(self, colang: str, yaml: str, actions=()):
         self.config = RailsConfig.from_content(colang_content=colang, yaml_content=yaml + EMB_YAML)
@@ -149,8 +156,26 @@ class World:
         self.fault_kind = "raise"
         self.action_results: dict = {}
         self.rails = LLMRails(self.config, llm=self.llm, verbose=False)
-        self.rails.register_action(self._rail_action, name="verif_rail")
-        self.rails.register_action(self._dialog_action, name="verif_lookup")
+        form = World.action_form
+        if form == "async":
+            self.rails.register_action(self._rail_action, name="verif_rail")
+            self.rails.register_action(self._dialog_action, name="verif_lookup")
+        elif form == "sync":
+            # plain synchronous actions
+            self.rails.register_action(self._rail_sync, name="verif_rail")
+            self.rails.register_action(self._dialog_sync, name="verif_lookup")
+        elif form == "wrapped":
+            # an ordinary decorator around an async action: a sync function returning the coroutine
+            def rail_wrapper(**kw):
+                return self._rail_action(**kw)
+
+            def dialog_wrapper(**kw):
+                return self._dialog_action(**kw)
+
+            self.rails.register_action(rail_wrapper, name="verif_rail")
+            self.rails.register_action(dialog_wrapper, name="verif_lookup")
+        else:
+            raise ValueError(form)
         for name, fn in actions:
             self.rails.register_action(fn, name=name)
 
@@ -167,10 +192,18 @@ class World:
             rec["fault"] = self.fault_kind
             if self.fault_kind == "raise":
                 raise InjectedFault(f"injected fault at action invocation {rec['i']}")
+            if self.fault_kind.startswith("raise:"):
+                raise FAULT_CLASSES[self.fault_kind[6:]](f"injected fault at action invocation {rec['i']}")
             return True
         return False
 
     async def _rail_action(self, rail: str, text: Optional[str] = None):
+        return self._rail_sync(rail, text)
+
+    async def _dialog_action(self, q: Optional[str] = None):
+        return self._dialog_sync(q)
+
+    def _rail_sync(self, rail: str, text: Optional[str] = None):
         rec = {"i": len(self.action_log), "seq": self._next_seq(), "action": "verif_rail", "rail": rail, "text": text}
         self.action_log.append(rec)
         if self._maybe_fault(rec):
@@ -183,7 +216,7 @@ class World:
             return False
         return v[1]
 
-    async def _dialog_action(self, q: Optional[str] = None):
+    def _dialog_sync(self, q: Optional[str] = None):
         rec = {"i": len(self.action_log), "seq": self._next_seq(), "action": "verif_lookup", "text": q}
         self.action_log.append(rec)
         if self._maybe_fault(rec):
